@@ -603,8 +603,16 @@ func toFP(v Value) (*Term, bool) {
 		}
 	case FInt:
 		return FFromBV(x.t, true), true
+	case FCmp:
+		// value = floor + 0.5*frac exactly (a multiple of one half): h/2 is exact in float64
+		return FBin("fp.div", FFromBV(halfTerm(x), false), FConstT(2)), true
 	}
 	return nil, false
+}
+
+// halfTerm returns 2*value of a comparison float as a 64-bit term.
+func halfTerm(c FCmp) *Term {
+	return BinBV("bvadd", BinBV("bvmul", c.fl, BV(64, 2)), Ite(c.frac, BV(64, 1), BV(64, 0)))
 }
 
 var mirror = map[token.Token]token.Token{token.GTR: token.LSS, token.LSS: token.GTR, token.GEQ: token.LEQ, token.LEQ: token.GEQ, token.EQL: token.EQL, token.NEQ: token.NEQ}
@@ -750,17 +758,22 @@ func floatBin(w *Worker, s *State, op token.Token, a, b Value) (Value, bool) {
 			return floatBin(w, s, mo, b, a)
 		}
 	case aIsC && bIsC:
-		eq := And(Cmp("=", ac.fl, bc.fl), BoolEq(ac.frac, bc.frac))
-		lt := Or(Cmp("bvult", ac.fl, bc.fl), And(Cmp("=", ac.fl, bc.fl), And(Not(ac.frac), bc.frac)))
+		// both are multiples of one half: compare twice their values as integers
+		ha, hb := halfTerm(ac), halfTerm(bc)
 		switch op {
 		case token.EQL:
-			return eq, true
+			return Cmp("=", ha, hb), true
 		case token.NEQ:
-			return Not(eq), true
+			return Not(Cmp("=", ha, hb)), true
+		case token.LSS:
+			return Cmp("bvult", ha, hb), true
+		case token.LEQ:
+			return Cmp("bvule", ha, hb), true
+		case token.GTR:
+			return Cmp("bvult", hb, ha), true
+		case token.GEQ:
+			return Cmp("bvule", hb, ha), true
 		}
-		// ordering of two comparison-only floats is undetermined when both have a fraction
-		_ = lt
-		return nil, false
 	case aIsC || bIsC:
 		// comparison-only float against a concrete value
 		c, o, cop := ac, b, op
@@ -774,26 +787,27 @@ func floatBin(w *Worker, s *State, op token.Token, a, b Value) (Value, bool) {
 			if math.IsInf(fo, 0) {
 				return floatBin(w, s, cop, FInt{BV(64, 0)}, o)
 			}
-			if math.Abs(fo) < 1e18 && fo == math.Floor(fo) {
-				k := BV(64, uint64(int64(fo)))
-				// c ? k   with c = fl + (frac ? something in (0,1) : 0)
+			if math.Abs(fo) < 1e17 {
+				// c.value ? fo  <=>  h ? 2*fo with h = 2*c.value an integer >= 0
+				h := halfTerm(c)
+				two := 2 * fo
+				lo, hi := BV(64, uint64(int64(math.Floor(two)))), BV(64, uint64(int64(math.Ceil(two))))
 				switch cop {
-				case token.LSS: // c < k  <=> ceil(c) <= k ... for integer k: c<k <=> fl<k (since fl<=c<fl+1)
-					return Cmp("bvslt", c.fl, k), true
-				case token.GEQ:
-					return Cmp("bvsle", k, c.fl), true
-				case token.LEQ: // c <= k <=> ceil(c) <= k
-					return Cmp("bvsle", fcmpCeil(c), k), true
+				case token.LSS:
+					return Cmp("bvslt", h, hi), true
+				case token.LEQ:
+					return Cmp("bvsle", h, lo), true
 				case token.GTR:
-					return Cmp("bvslt", k, fcmpCeil(c)), true
+					return Cmp("bvslt", lo, h), true
+				case token.GEQ:
+					return Cmp("bvsle", hi, h), true
 				case token.EQL:
-					return And(Not(c.frac), Cmp("=", c.fl, k)), true
+					return And(Bool(math.Floor(two) == two), Cmp("=", h, lo)), true
 				case token.NEQ:
-					return Not(And(Not(c.frac), Cmp("=", c.fl, k))), true
+					return Not(And(Bool(math.Floor(two) == two), Cmp("=", h, lo))), true
 				}
 			}
 		}
-		return nil, false
 	}
 	// general case: FP theory
 	ta, ok1 := toFP(a)
@@ -856,6 +870,8 @@ func (w *Worker) convert(s *State, v Value, from, to types.Type) Value {
 		switch x := v.(type) {
 		case FInt:
 			return Trunc(x.t, tw)
+		case FCmp:
+			return Trunc(x.fl, tw)
 		case *Term:
 			s.job.stub("float->int conversion in the FP theory")
 			return FToBV(x, tw, tsigned)
